@@ -986,6 +986,29 @@ def corr_binary_records(ck: Ck, data: bytes, tb: dict) -> None:
         ck.count('corr_binary_blocks')
         ck.count('corr_binary_block_entities', len(ents))
         ck.seen(('binblock', bi, len(blob)))
+    # ---- the file header: magic, version, block count and the first (thorough: all) position records
+    import struct
+    count = struct.unpack_from('<I', data, 4)[0]
+    pos, recs = 8, []
+    for _ in range(count):
+        n = struct.unpack_from('<H', data, pos)[0]
+        names = data[pos + 2:pos + 2 + n]
+        off, size = struct.unpack_from('<IH', data, pos + 2 + n)
+        recs.append((names, off, size, pos))
+        pos += 2 + n + 6
+    header_end = pos
+    nrec = count if ck.thorough else min(count, 8)
+    cut = header_end if nrec == count else recs[nrec][3]
+    impl_pos = [(list(cn), len(blob)) for cn, blob in db.unparsed]
+    consecutive = all(recs[i][1] + recs[i][2] == recs[i + 1][1] for i in range(count - 1))
+    names_match = all(recs[i][0].decode('utf8').split(E.STRING_SEP) == impl_pos[i][0] and recs[i][2] == impl_pos[i][1] for i in range(count))
+    ck.obligation('data:block_positions_are_consecutive', consecutive and names_match and count == nblocks,
+                  f'{count} position records of the shipped file: off[i] + size[i] == off[i+1] (the `positions` of c16_block_positions_slices), '
+                  f'names and sizes as EngineDB holds them')
+    exprs.append('match %s with 70 :: 71 :: 68 :: v :: a :: b :: c :: d :: r => (v =? bin_format_version) && (un32 a b c d =? %d) && '
+                 'match rd_n %d bpos_unser r with Some (l, rest) => list_eqb (fun x y => nlist_eqb (bp_names x) (bp_names y) && (bp_off x =? bp_off y) '
+                 '&& (bp_size x =? bp_size y)) l %s && (List.length rest =? 0)%%nat | None => false end | _ => false end'
+                 % (coq_N(data[:cut]), count, nrec, coq_list('mk_bpos %s %d %d' % (coq_N(nm), off, size) for nm, off, size, _ in recs[:nrec])))
     pre = PRE + 'Definition base_canon : list N := %s.\n' % coq_N([first_base[x] for x in base]) + BIN_PRE
     vals: list[str] = []
     for lo in range(0, max(len(brow), 1), 25):     # <= 25 blocks (about 70 kB of bytes) per Coq file
@@ -998,7 +1021,12 @@ def corr_binary_records(ck: Ck, data: bytes, tb: dict) -> None:
             return
         vals += got
     bad = parse_coq_N_list(vals[0])
-    badb = [brow[i][0] for i, v in enumerate(vals[1:]) if v != 'true']
+    ck.obligation('correspondence:binary_header', vals[1] == 'true',
+                  f'bytes 0..{cut} of the shipped file: magic, BIN_FORMAT_VERSION, block count and {nrec} of {count} position records '
+                  f'(class-name bytes, offset, size) as header_unser / bpos_unser of Fmt/FgdBinEnt.v read them == what unserialise() reads')
+    if vals[1] != 'true':
+        ck.tie_broken.append('correspondence binary header (Fmt/FgdBinEnt.v vs _engine_db.unserialise)')
+    badb = [brow[i][0] for i, v in enumerate(vals[2:]) if v != 'true']
     ck.obligation('correspondence:binary_records', not bad,
                   f'{len(rows)} generated definitions: bytes written by ent_serialise == ent_ser of the model, and ent_unser of those '
                   f'bytes == what ent_unserialise returns with nothing left over: {len(bad)} disagreements')
